@@ -336,14 +336,42 @@ func runC17(c *fw.Ctx) {
 			}
 			P := lab.NewMPT(util.NewLevelNodeDB(util.NewMemoryNodeDB(), pstore, false), mv+3, root)
 			Cc := lab.NewMPT(util.NewLevelNodeDB(util.NewMemoryNodeDB(), P.GetNodeDB(), false), mv+3, root)
-			if err := Cc.MergeDB(donor, root, nil); err != nil {
+			// in half of the cases the child first changes the state locally (deletes a readable path) and then syncs back to
+			// the root from a complete donor: the nodes its own delete had dropped come back with the sync
+			syncDonor, ssnap := donor, dsnap
+			if r.Intn(2) == 0 {
+				var cand []string
+				for _, p := range lab.SortedKeys(mdl) {
+					if !blocked[p] {
+						cand = append(cand, p)
+					}
+				}
+				if len(cand) > 0 {
+					lp := cand[r.Intn(len(cand))]
+					if _, derr := Cc.Delete(util.Path(lp)); derr == nil {
+						syncDonor = util.NewMemoryNodeDB()
+						for _, n := range nodes {
+							_ = syncDonor.PutNode(n.Key, n.Node)
+						}
+						ssnap = memSnapshot(syncDonor)
+						c.Count("syncs_after_a_local_delete", 1)
+					}
+				}
+			}
+			if err := Cc.MergeDB(syncDonor, root, nil); err != nil {
 				fail("MergeDB on a child trie failed: %v", err)
 			} else {
 				extra := g.Pick(lab.SortedKeys(mdl)) + "0f"
+				want := lab.CopyContent(mdl)
 				if _, err := Cc.Insert(util.Path(extra), &lab.Val{B: []byte("after-repair")}); err == nil {
-					_ = P.MergeMPTChanges(Cc)
+					want[extra] = []byte("after-repair")
+					if merr := P.MergeMPTChanges(Cc); merr != nil {
+						fail("merging the repaired child into its parent failed: %v", merr)
+					} else if f := lab.CheckMap(P, want, nil); f != "" {
+						fail("parent after merging the repaired child: %s", f)
+					}
 				}
-				if memSnapshot(donor) != dsnap {
+				if memSnapshot(syncDonor) != ssnap {
 					fail("the donor store changed after the repaired trie's changes were merged into its parent")
 				}
 				c.Count("repaired_child_merged_into_parent", 1)
@@ -459,7 +487,7 @@ func init() {
 			return 4800
 		},
 		Run:    runC17,
-		Floors: map[string]int64{"fat_tries": 50, "removal_sets_above_256_nodes": 35, "store_level_repairs": 15000, "tries": 3000, "removal_sets": 50000, "removal:single": 30000, "removal:subtree": 9000, "removal:scattered": 12000, "blocked_lookups": 50000, "repairs_with_foreign_origin": 20000, "tries_with_mixed_origins": 1000, "warm_cache_repairs": 10000, "repaired_child_merged_into_parent": 8000, "synced_state_saved_and_reread": 8000, "repairs_from_layered_donor": 8000},
+		Floors: map[string]int64{"fat_tries": 50, "removal_sets_above_256_nodes": 35, "store_level_repairs": 15000, "syncs_after_a_local_delete": 3000, "tries": 3000, "removal_sets": 50000, "removal:single": 30000, "removal:subtree": 9000, "removal:scattered": 12000, "blocked_lookups": 50000, "repairs_with_foreign_origin": 20000, "tries_with_mixed_origins": 1000, "warm_cache_repairs": 10000, "repaired_child_merged_into_parent": 8000, "synced_state_saved_and_reread": 8000, "repairs_from_layered_donor": 8000},
 		Assumptions: []string{
 			"the donor is a MemoryNodeDB (map iteration order = arbitrary repair order)",
 			"single-node removals are exhaustive up to 24 nodes per trie; other subsets are sampled",
